@@ -274,7 +274,7 @@ def param_enum_switches(body, adt_re, param=None):
     return enum_switches_on(body, lambda L: any(l[0] in ("param", "upvar") and (param is None or l[1] == param) for l in L), adt_re)
 
 
-NEXT_TRANSPARENT = re.compile(TRANSPARENT.pattern[:-2] + r"|.*Iterator>::next|(std|core)::iter::Iterator::next|.*::iter|.*::into_iter|.*::iter_mut|(std|core)::iter::Iterator::(enumerate|rev|cloned|copied|peekable))$")
+NEXT_TRANSPARENT = re.compile(TRANSPARENT.pattern[:-2] + r"|.*Iterator>::next|(std|core)::iter::Iterator::next|(std|core)::iter::range::<impl .*>::next|.*::iter|.*::into_iter|.*::iter_mut|(std|core)::iter::Iterator::(enumerate|rev|cloned|copied|peekable))$")
 
 
 FS_MUT = re.compile(
@@ -396,10 +396,17 @@ def deep_locals(body, op, depth=40, wide=False):
     return out
 
 
+def for_headers(body):
+    """the `next()` call of every `for` loop (resolved name ends with ::next and the call stems from the for-loop desugaring), plus explicit Iterator::next calls"""
+    live = body.live_blocks()
+    return [c for c in body.calls if not c.cleanup and c.bb in live and c.nname.endswith("::next")
+            and ("desugar:ForLoop" in c.mac or c.nname.endswith("Iterator>::next") or "WhileLet" in " ".join(c.mac))]
+
+
 def loop_nexts(body, pred):
-    """`Iterator::next` calls (for-loop headers) whose iterated value's origins satisfy pred(leaves)"""
+    """for-loop headers whose iterated value's origins satisfy pred(leaves)"""
     out = []
-    for c in body.find_calls(r"Iterator>::next$"):
+    for c in for_headers(body):
         L = body.origins(c.args[0], transparent=NEXT_TRANSPARENT, depth=16)
         if pred(L):
             out.append(c)
